@@ -398,21 +398,42 @@ Section Stat.
     | _, _ => Ok (s, pv)
     end.
 
-  (* first loop of cgLocalVarDeclStat; returns the names without a value and lastExpFuncFlag *)
-  Fixpoint local_loop (names : list bytes) (locs : list loc) (es : list exp) (s : state)
-    : Res (state * list bytes * list loc * bool) :=
+  (* first loop of cgLocalVarDeclStat (since fixes/C07-multi-local-order.diff in two steps, as Lua evaluates a local
+     statement): local_eval analyses ALL the expressions up to and including the first one beyond the names and keeps
+     what the second step needs (the FuncInfo of a function literal, the members of a table literal); local_adds then
+     adds the names; returns the names without a value and lastExpFuncFlag.  Before the repair name i was added right
+     after expression i, so a later expression saw the earlier names of the statement. *)
+  Fixpoint local_eval (names : list bytes) (locs : list loc) (es : list exp) (s : state) {struct es}
+    : Res (state * list (option finfo * pvar)) :=
     match es with
-    | [] => Ok (s, names, locs, false)
+    | [] => Ok (s, [])
     | e :: es' =>
       do (s1, ofn, sub) <- ce e (Some []) s ;
       match names, locs with
-      | nm :: names', l :: locs' =>
-        let v := VI l (if is_func e then ofn else None) (sub_of sub) false None (refk_of e) (local_ref_empty nm e) in
-        do (s3, rn, rl, flag) <- local_loop names' locs' es' (add_loc_var nm v s1) ;
-        Ok (s3, rn, rl, match es' with [] => is_call e | _ => flag end)
-      | _, _ => Ok (s1, [], [], false)                    (* i >= nNames: break *)
+      | _ :: names', _ :: locs' => do (s2, rs) <- local_eval names' locs' es' s1 ; Ok (s2, (ofn, sub) :: rs)
+      | _, _ => Ok (s1, [])                                (* i >= nNames: break *)
       end
     end.
+
+  Fixpoint local_adds (names : list bytes) (locs : list loc) (es : list exp)
+           (rs : list (option finfo * pvar)) (s : state) {struct es}
+    : state * list bytes * list loc * bool :=
+    match es with
+    | [] => (s, names, locs, false)
+    | e :: es' =>
+      match rs, names, locs with
+      | (ofn, sub) :: rs', nm :: names', l :: locs' =>
+        let v := VI l (if is_func e then ofn else None) (sub_of sub) false None (refk_of e) (local_ref_empty nm e) in
+        match local_adds names' locs' es' rs' (add_loc_var nm v s) with
+        | (s3, rn, rl, flag) => (s3, rn, rl, match es' with [] => is_call e | _ => flag end)
+        end
+      | _, _, _ => (s, [], [], false)
+      end
+    end.
+
+  Definition local_loop (names : list bytes) (locs : list loc) (es : list exp) (s : state)
+    : Res (state * list bytes * list loc * bool) :=
+    do (s1, rs) <- local_eval names locs es s ; Ok (local_adds names locs es rs s1).
 
   Fixpoint add_plain_locals (names : list bytes) (locs : list loc) (r : refk) (em : bool) (s : state) : state :=
     match names, locs with
@@ -583,7 +604,7 @@ with cg_stat (n : nat) (flv slv : N) (st : stat) (s : state) {struct n} : Res st
     | SWhile e b _ => do s1 <- nil0 e s ; scoped (blk1 b) s1
     | SRepeat b e _ => scoped (fun s0 => do s1 <- blk1 b s0 ; nil1 e s1) s
     | SForNum nm vl e1 e2 e3 b _ =>
-      scoped (fun s0 => do s1 <- nil1 e1 s0 ; do s2 <- nil1 e3 s1 ; do s3 <- nil1 e2 s2 ;
+      scoped (fun s0 => do s1 <- nil1 e1 s0 ; do s2 <- nil1 e2 s1 ; do s3 <- nil1 e3 s2 ;   (* init, limit, step *)
                         blk1 b (add_loc_var nm (VI vl None [] false None RkNone false) s3)) s
     | SForIn nms ls es b _ =>
       scoped (fun s0 => do s1 <- iter_res nil1 es s0 ;
